@@ -8,7 +8,7 @@ from .refs import pep440 as P
 from .refs import semver as S
 
 DIRT_KINDS = ["clean", "modified", "staged_new", "untracked", "ignored_only", "deleted", "staged_modified", "staged_then_reverted", "staged_new_then_deleted",
-              "untracked_in_subdir", "touched_same_content"]
+              "untracked_in_subdir", "touched_same_content", "mode_change"]
 
 
 class GitError(Exception):
@@ -80,14 +80,31 @@ class Repo:
         return cid
 
     # -- operations ---------------------------------------------------------
-    def commit(self):
+    def add_submodule(self):
+        """adds a submodule `lib` (own little repository next to this one) and commits it"""
+        src = os.path.join(os.path.dirname(self.path), "subsrc")
+        if not os.path.exists(src):
+            os.makedirs(src)
+            subprocess.run([core.REAL_GIT, "init", "-q", "-b", "main", src], env=self.env, check=True, capture_output=True)
+            with open(os.path.join(src, "inner.txt"), "w") as f:
+                f.write("inner\n")
+            subprocess.run([core.REAL_GIT, "-C", src, "add", "inner.txt"], env=self.env, check=True, capture_output=True)
+            subprocess.run([core.REAL_GIT, "-C", src, "commit", "-q", "-m", "inner"], env=self.env, check=True, capture_output=True)
+        self.git("-c", "protocol.file.allow=always", "submodule", "add", "-q", src, "lib")
+        cid = self._commit_raw("add submodule lib", [])
+        self.ops.append("submodule add lib -> c%d" % cid)
+        return cid
+
+    def commit(self, filename=None, content=None):
         self.nfile += 1
-        name = "f%d.txt" % self.nfile
+        name = filename or "f%d.txt" % self.nfile
+        if os.path.dirname(name):
+            os.makedirs(os.path.join(self.path, os.path.dirname(name)), exist_ok=True)
         with open(os.path.join(self.path, name), "w") as f:
-            f.write("content %d\n" % self.nfile)
+            f.write(content or "content %d\n" % self.nfile)
         self.git("add", name)
         cid = self._commit_raw("c%d" % self.nfile, [])
-        self.ops.append("commit -> c%d" % cid)
+        self.ops.append("commit -> c%d" % cid + (" (adds the path %r)" % filename if filename else ""))
         return cid
 
     def branch(self, name, cid=None):
@@ -226,6 +243,16 @@ class Repo:
                 f.write(data)
             os.utime(fp, (1_000_000_000 + self.rng.randrange(10 ** 8), 1_000_000_000 + self.rng.randrange(10 ** 8)))
             return False
+        if kind == "mode_change":
+            # content untouched, executable bit flipped: git status reports ` M` (core.fileMode is on for a Linux work tree)
+            fp = os.path.join(p, "tracked.txt")
+            os.chmod(fp, os.stat(fp).st_mode ^ 0o111)
+            return True
+        if kind == "submodule_modified":
+            # a tracked file edited inside a checked-out submodule: the super-project's status reports ` M lib`
+            with open(os.path.join(p, "lib", "inner.txt"), "a") as f:
+                f.write("edited\n")
+            return True
         if kind == "untracked_in_subdir":
             os.makedirs(os.path.join(p, "newdir", "deep"), exist_ok=True)
             with open(os.path.join(p, "newdir", "deep", "u.txt"), "w") as f:
@@ -234,7 +261,7 @@ class Repo:
         raise KeyError(kind)
 
     def clean(self):
-        self.git("reset", "-q", "--hard", "HEAD")
+        self.git("reset", "-q", "--hard", "HEAD", "--")
         self.git("clean", "-q", "-fdx")
 
     # -- model queries --------------------------------------------------------
@@ -285,7 +312,8 @@ def admissible_max(tags, fmt):
     return out
 
 
-BOTH = ["%d.%d.%d", "v%d.%d.%d", "%d.%d.%d-rc.1", "%d.%d.%d-alpha.2", "%d.%d.%d+build.5", "%d.%d.%d-beta.10"]
+BOTH = ["%d.%d.%d", "v%d.%d.%d", "%d.%d.%d-rc.1", "%d.%d.%d-alpha.2", "%d.%d.%d+build.5", "%d.%d.%d-beta.10",
+        "%d.%d.%d-dev.1", "%d.%d.%d-post.2", "%d.%d.%d-alpha.1.dev.2", "%d.%d.%d-rc.1.post.3"]      # zerv's own secondary labels: plain identifiers for SemVer precedence
 SEMVER_ONLY = ["%d.%d.%d-x.y", "%d.%d.%d-0.3.7", "%d.%d.%d-rc-1", "%d.%d.%d--"]
 PEP_ONLY = ["%d.%d", "%d.%da1", "2!%d.%d", "%d.%d.post1", "%d.%d.dev3", "%d.%d.%d.4", "%d.%drc1", "%d.%d.%d.post2.dev1"]
 NONVERSION = ["release-%d", "latest", "v%d.%d.x", "%d.%d.%d-", "build/%d.%d.%d", "nightly_%d", "V%d-%d", "%d..%d"]
@@ -321,7 +349,19 @@ def build_random(path, rng, nops):
         k = rng.random()
         try:
             if k < 0.32:
-                r.commit()
+                if rng.random() < 0.06:
+                    # a work-tree path that shares its name with a ref: a tag, a branch, HEAD, or a directory named like a tag
+                    names = [t["name"] for t in r.tags] + sorted(r.branches) + ["HEAD"]
+                    nm = rng.choice(names)
+                    import zlib
+                    # file or directory is a function of the name, and the content is constant: the same path added on two branches merges cleanly
+                    target = nm if zlib.crc32(nm.encode()) % 5 < 3 else nm + "/readme.md"
+                    if not os.path.exists(os.path.join(r.path, nm)):
+                        r.commit(filename=target, content="named like a ref\n")
+                    else:
+                        r.commit()
+                else:
+                    r.commit()
             elif k < 0.42:
                 name = rng.choice(BRANCHES)
                 cid = rng.choice(r.commits)["id"] if rng.random() < 0.4 else None
